@@ -483,10 +483,15 @@ impl Lexer {
                 break;
             }
 
-            // If we STILL can't match, then just panic out.
-            let mut resort_res = self.last_resort_lexer.matches(str_buff);
-            if !resort_res.elements.is_empty() {
-                break;
+            // Hand whatever we could not match to the last resort lexer, keep
+            // what it takes as an unlexable element and carry on after it.
+            let mut resort_res = self.last_resort_lexer.matches(res.forward_string);
+            if resort_res.elements.is_empty() {
+                // If we STILL can't match, then just error out.
+                return Err(ValueError::new(format!(
+                    "Unable to lex characters: {:?}",
+                    res.forward_string.chars().take(10).collect::<String>()
+                )));
             }
 
             str_buff = resort_res.forward_string;
